@@ -319,6 +319,12 @@ func init() {
 	reg("(time.Time).Unix", "floor(t / 1e9)", func(ex *Exec, a []Val, st *State, _ *types.Signature) []Val {
 		return []Val{P.mk("div", "", SInt, []*Term{tm(a[0]), IntT(1000000000)}, nil)}
 	})
+	reg("(time.Time).UnixMilli", "floor(t / 1e6)", func(ex *Exec, a []Val, st *State, _ *types.Signature) []Val {
+		return []Val{P.mk("div", "", SInt, []*Term{tm(a[0]), IntT(1000000)}, nil)}
+	})
+	reg("(time.Time).UnixMicro", "floor(t / 1e3)", func(ex *Exec, a []Val, st *State, _ *types.Signature) []Val {
+		return []Val{P.mk("div", "", SInt, []*Term{tm(a[0]), IntT(1000)}, nil)}
+	})
 	regEff("(time.Time).AppendFormat", "may overwrite the elements of the given buffer; returns an unconstrained byte slice; touches nothing else", func(ex *Exec, a []Val, st *State, sig *types.Signature) []Val {
 		b := a[1].(*Agg)
 		ex.havocElems(st, tm(b.F[0]), types.Typ[types.Byte])
